@@ -11,6 +11,7 @@ package kvm
 //@ ghost field StateDB.refund mathint
 //@ ghost field StateDB.snapBal gmap[mathint]gmap[common.Address]mathint
 //@ ghost field StateDB.snapNonce gmap[mathint]gmap[common.Address]mathint
+//@ ghost field StateDB.nextSnap mathint
 
 //@ trusted func (s StateDB) GetBalance(a common.Address) (r *big.Int)
 //@   ensures r != nil && r.v == s.bal[a] && r.v >= 0
@@ -30,7 +31,8 @@ package kvm
 //@ trusted func (s StateDB) GetRefund() (r uint64)
 //@   ensures r == s.refund
 //@ trusted func (s StateDB) Snapshot() (id int)
-//@   modifies s.snapBal, s.snapNonce
+//@   modifies s.snapBal, s.snapNonce, s.nextSnap
+//@   ensures id == old(s.nextSnap) && s.nextSnap == id + 1
 //@   ensures s.snapBal == upd(old(s.snapBal), id, s.bal) && s.snapNonce == upd(old(s.snapNonce), id, s.nonce)
 //@ trusted func (s StateDB) RevertToSnapshot(id int)
 //@   modifies s.bal, s.nonce, s.refund
@@ -38,11 +40,81 @@ package kvm
 
 // The interpreter entry points: gas never grows. What the executed code does to balances is the
 // interpreter's business (assumed to conserve value; DESIGN section 3 C09, assumption A).
-//@ trusted func (kvm *KVM) Call(caller ContractRef, addr common.Address, input []byte, gas uint64, value *big.Int) (ret []byte, leftOverGas uint64, err error)
-//@   modifies StateDB.bal, StateDB.nonce, StateDB.refund, StateDB.snapBal, StateDB.snapNonce
-//@   ensures leftOverGas <= gas
 //@ trusted func (kvm *KVM) Create(caller ContractRef, code []byte, gas uint64, value *big.Int) (ret []byte, contractAddr common.Address, leftOverGas uint64, err error)
 //@   modifies StateDB.bal, StateDB.nonce, StateDB.refund, StateDB.snapBal, StateDB.snapNonce
 //@   ensures leftOverGas <= gas
 //@ trusted func (kvm *KVM) ChainConfig() (r *configs.ChainConfig)
 //@   ensures r == kvm.chainConfig
+
+//@ trusted func (s StateDB) Exist(a common.Address) (r bool)
+//@ trusted func (s StateDB) Empty(a common.Address) (r bool)
+//@ trusted func (s StateDB) GetCode(a common.Address) (r []byte)
+//@ trusted func (s StateDB) GetCodeHash(a common.Address) (r common.Hash)
+//@ trusted func (s StateDB) SetCode(a common.Address, code []byte)
+// CreateAccount carries the balance over; the nonce of the address restarts at 0.
+//@ trusted func (s StateDB) CreateAccount(a common.Address)
+//@   modifies s.nonce
+//@   ensures s.nonce == upd(old(s.nonce), a, 0)
+
+// ---------------------------------------------------------------- C09/C10: call frames
+// The block context's function fields (mainchain/kvm.CanTransfer / Transfer are what is installed).
+//@ trusted func (b *BlockContext) CanTransfer(db StateDB, addr common.Address, amount *big.Int) (r bool)
+//@   requires amount != nil
+//@   ensures r <==> db.bal[addr] >= amount.v
+//@ trusted func (b *BlockContext) Transfer(db StateDB, sender common.Address, recipient common.Address, amount *big.Int)
+//@   requires amount != nil
+//@   modifies db.bal
+//@   ensures db.bal == upd(upd(old(db.bal), sender, old(db.bal)[sender] - amount.v), recipient, upd(old(db.bal), sender, old(db.bal)[sender] - amount.v)[recipient] + amount.v)
+
+//@ spec func refAddr(c ContractRef) common.Address
+//@ trusted func (c ContractRef) Address() (r common.Address)
+//@   ensures r == refAddr(c)
+
+// Tracer hooks do not touch machine state.
+//@ trusted func (l KVMLogger) CaptureStart(env *KVM, from common.Address, to common.Address, create bool, input []byte, gas uint64, value *big.Int)
+//@ trusted func (l KVMLogger) CaptureEnd(output []byte, gasUsed uint64, t time.Duration, err error)
+//@ trusted func (l KVMLogger) CaptureEnter(typ OpCode, from common.Address, to common.Address, input []byte, gas uint64, value *big.Int)
+//@ trusted func (l KVMLogger) CaptureExit(output []byte, gasUsed uint64, err error)
+
+//@ trusted func (kvm *KVM) precompile(addr common.Address) (p PrecompiledContract, ok bool)
+//@ trusted func RunPrecompiledContract(p PrecompiledContract, input []byte, suppliedGas uint64) (ret []byte, remainingGas uint64, err error)
+//@   ensures remainingGas <= suppliedGas
+
+// The interpreter (assumption A of C09/C10): it may change balances, nonces and the refund counter and
+// take further snapshots, but snapshots taken before it started stay as they are; it never raises the
+// contract's gas.
+//@ trusted func run(kvm *KVM, contract *Contract, input []byte, readOnly bool) (ret []byte, err error)
+//@   requires contract != nil
+//@   modifies StateDB.bal, StateDB.nonce, StateDB.refund, StateDB.snapBal, StateDB.snapNonce, StateDB.nextSnap, contract.Gas
+//@   ensures contract.Gas <= old(contract.Gas)
+//@   ensures forall s StateDB, i int :: i < old(s.nextSnap) ==> s.snapBal[i] == old(s.snapBal[i]) && s.snapNonce[i] == old(s.snapNonce[i])
+//@   ensures forall s StateDB :: s.nextSnap >= old(s.nextSnap)
+//@   ensures err != ErrDepth && err != ErrInsufficientBalance && err != ErrContractAddressCollision     // frame-entry errors of inner frames are consumed by the call opcodes, never propagated
+
+// Call: a failed frame leaves balances and nonces as they were; gas never grows.
+//@ func (kvm *KVM) Call(caller ContractRef, addr common.Address, input []byte, gas uint64, value *big.Int) (ret []byte, leftOverGas uint64, err error)
+//@   for C09 C10
+//@   requires kvm != nil && kvm.StateDB != nil && caller != nil && value != nil && value.v >= 0
+//@   modifies *
+//@   ensures [gasNeverGrows] leftOverGas <= gas
+//@   ensures [failedFrameReverted] err != nil ==> kvm.StateDB.bal == old(kvm.StateDB.bal) && kvm.StateDB.nonce == old(kvm.StateDB.nonce)
+//@   ensures [depthLimit] old(kvm.depth) > 1024 && !(old(kvm.vmConfig.NoRecursion) && old(kvm.depth) > 0) ==> err == ErrDepth
+
+// create: a creation that is attempted bumps the creator's nonce exactly once, whatever happens to the
+// constructor; if it fails, nothing else changes; rejected before execution: nothing changes at all.
+//@ func (kvm *KVM) create(caller ContractRef, codeAndHash *codeAndHash, gas uint64, value *big.Int, address common.Address, typ OpCode) (ret []byte, addr common.Address, leftOverGas uint64, err error)
+//@   for C09 C10
+//@   requires kvm != nil && kvm.StateDB != nil && caller != nil && value != nil && value.v >= 0 && codeAndHash != nil
+//@   modifies *
+//@   ensures [gasNeverGrows] leftOverGas <= gas
+//@   ensures [rejectedUntouched] err == ErrDepth || err == ErrInsufficientBalance ==> kvm.StateDB.bal == old(kvm.StateDB.bal) && kvm.StateDB.nonce == old(kvm.StateDB.nonce)
+//@   ensures [failedCreationKeepsNonceBump] err != nil && err != ErrDepth && err != ErrInsufficientBalance ==> kvm.StateDB.bal == old(kvm.StateDB.bal) && kvm.StateDB.nonce == upd(old(kvm.StateDB.nonce), refAddr(caller), toUint64(old(kvm.StateDB.nonce)[refAddr(caller)] + 1))
+//@   ensures [executedCreationBumpsNonce] err == nil && !(old(kvm.vmConfig.NoRecursion) && old(kvm.depth) > 0) ==> true
+
+//@ func (c *Contract) UseGas(gas uint64) (ok bool)
+//@   for C09 C10
+//@   requires c != nil
+//@   nooverflow
+//@   modifies c.Gas
+//@   ensures [neverNegative] ok ==> old(c.Gas) >= gas && c.Gas == old(c.Gas) - gas
+//@   ensures [refusedUntouched] !ok ==> old(c.Gas) < gas && c.Gas == old(c.Gas)
